@@ -4,7 +4,7 @@
 # against it, and stores it under /verif/seeded/<id>-<seedN>/.
 wt="$1"; seed="$2"; id="$3"; tier="${4:-quick}"
 sd="$wt/$seed"
-out="/verif/seeded/$id-$seed"
+out="/verif/seeded/$id-${SEEDTAG:-}$seed"
 mkdir -p "$out"
 cd "$wt" || exit 2
 git checkout -q -- rope
